@@ -557,6 +557,27 @@ def w6(F, rep):
 
 
 
+def w9(F, rep):
+    """Padding is written in exactly two places and with the captured bits: BitWriter::pad is called for a stored block's
+    header filler (block.padding_bits) and from flush_with_padding(padding); flush_with_padding is called by the code that
+    drives the writer with the captured end-of-stream padding, never by the writer on its own and never with a constant."""
+    pads, flushes = [], []
+    for name, b in sorted(F.bodies.items()):
+        for bb, t in b.calls():
+            cn = strip_generics(callee_def(t))
+            if cn.endswith("BitWriter::pad"):
+                pads.append((name.replace(P, ""), flow.describe(b, t["args"][1]), b.where(bb)))
+            elif cn.endswith("DeflateWriter::flush_with_padding"):
+                flushes.append((name.replace(P, ""), flow.describe(b, t["args"][1]), flow.const_eval(b, t["args"][1]), b.where(bb)))
+    ok_p = len(pads) == 2 and sorted(p[0].split("::")[-1] for p in pads) == ["encode_block", "flush_with_padding"] and \
+        any(re.search(r"\.padding_bits$", p[1]) for p in pads) and any(re.match(r"^arg<u8>", p[1]) for p in pads)
+    rep.add("W9", "pad-called-for-stored-filler-and-final-flush-only", ok_p, pads[0][2] if pads else "", "BitWriter::pad call sites: %s" % [(p[0].split("::")[-1], p[1]) for p in pads])
+    inside = [f for f in flushes if f[0].startswith("deflate_writer::")]
+    consts = [f for f in flushes if f[2] is not None]
+    rep.add("W9", "final-padding-comes-from-the-driver", bool(flushes) and not inside and not consts, flushes[0][3] if flushes else "",
+            "flush_with_padding call sites: %s" % [(f[0].split("::")[-1], f[1][:80]) for f in flushes])
+
+
 def w7(F, rep):
     """The codes a block's tokens are written with are the codes of that block's own header, computed the way the parser
     computes them: (a) encode_block hands encode_block_with_decoder a HuffmanWriter built *in this call* from
@@ -613,6 +634,7 @@ def run(ctx, rep):
     w5(F, rep)
     w6(F, rep)
     w7(F, rep)
+    w9(F, rep)
     # W8: what the parser captures as padding are exactly the bits left in the current byte, taken with the bit reader's own
     # read primitive (same rule as C03/T5 padding-count; a capture computed by hand from the reader's fields is not accepted)
     from . import c03
@@ -621,4 +643,12 @@ def run(ctx, rep):
     c03.t5b(F, tmp)
     for o in tmp.obs:
         o.rule = "W8"
+        rep.obs.append(o)
+    # W10: reader and writer derive their codes from the same lengths by two routines (tree / code table); they agree because
+    # both implement the canonical assignment over *complete* codes — the reader's construction and validity check must not grow
+    # special cases the writer's routine does not have (same rule as C03/T9)
+    tmp2 = Report("tmp", "quick")
+    c03.t9(F, tmp2)
+    for o in tmp2.obs:
+        o.rule = "W10"
         rep.obs.append(o)
